@@ -144,6 +144,7 @@ def corpus_source(cat):
             tag = "%s %s %s" % (f, u["const"], v["const"])
             lines.append("        println!(\"%s text {} | {:>14.3} | {:+}\", x, x, y);" % tag)
             lines.append("        println!(\"%s scaled {} {}\", bits((x * %s).amount()), bits((x / %s).amount()));" % (tag, b, b))
+            lines.append("        { let z = (y * Amnt!(0)) * Amnt!(-1); println!(\"%s zero {} | {:+} | {:08.2}\", z, z, z); }" % tag)
             if t["kind"] == "ref":
                 lines.append("        println!(\"%s conv {} {}\", bits(x.convert(%s).amount()), bits(y.convert(%s).amount()));" % (tag, cv, cu))
                 lines.append("        println!(\"%s arith {} {} {}\", bits((x + y).amount()), bits((x - y).amount()), bits(x / y));" % tag)
